@@ -13,7 +13,7 @@ The same function runs in two modes:
   the symbolic shim, (b) confirming a refutation on the real code (replay).
 
 Claims:  ("eq", name, lhs, rhs) | ("ge0", name, x) | ("gt0", name, x) |
-         ("zero", name, x)  (syntactic zero)  | ("true", name, bool)
+         ("zero", name, x)  (syntactic zero)  | ("true", name, bool) | ("must", name, bool): discrete fact, a false one in the concrete run refutes
 lhs/rhs/x may be scalars (RF / float) or tensors (ST / torch.Tensor) of equal shape.
 """
 from __future__ import annotations
@@ -397,7 +397,7 @@ def prove_scenario(scn, *, seed=0, crosscheck=2, max_paths=4000, timeout_ms=1000
                         raise Refuted("claim %s[%d]: %s is not the zero term" % (name, k, nf.show(nf.as_rf(x), 8)),
                                       witness={"claim": name}, replay=replay,
                                       confirmed=_confirm(scn, mk.decls, assumptions, rng, name, fns, rtol))
-            elif kind == "true":
+            elif kind in ("true", "must"):
                 n_ident += 1
                 v = cl[2]
                 if name == "unsupported_combination_raises":
@@ -430,6 +430,12 @@ def prove_scenario(scn, *, seed=0, crosscheck=2, max_paths=4000, timeout_ms=1000
         except Infeasible:
             continue
         by_name = {c[1]: c for c in num_claims}
+        # a discrete fact ("must" claim: like "true", but declared free of rounding by the contract) that is false in the concrete run is a failure of the real code at that input (no rounding involved),
+        # whatever the symbolic run said (e.g. autograd refusing to differentiate: invisible to the shim)
+        for cn in num_claims:
+            if cn[0] == "must" and not _num_claim_holds(cn, rtol):
+                raise Refuted("claim %s is false on the real code at %s%s" % (cn[1], env, (": " + str(cn[3])) if len(cn) > 3 else ""),
+                              witness={"claim": cn[1], "env": env}, replay=_with_env(replay, env), confirmed=True)
         for cs in claims:
             cn = by_name.get(cs[1])
             if cn is None:
@@ -497,7 +503,7 @@ def _num_claim_holds(cl, rtol):
         return all(float(x) > 0 for x in _flat(cl[2])[0])
     if kind == "zero":
         return all(float(x) == 0.0 for x in _flat(cl[2])[0])
-    if kind == "true":
+    if kind in ("true", "must"):
         v = cl[2]
         if isinstance(v, torch.Tensor):
             v = bool(v.all())
